@@ -142,6 +142,20 @@ func (m *Module) handleSetEntityAction(ctx context.Context, respond hwebsocket.R
 
 	m.state.SetEntityAction(entityAction)
 
+	// The entity may have been removed since it was looked up. Its actions are
+	// dropped after the entity itself, so an action that slipped in after that
+	// is dropped here.
+	if _, ok := session.EntityByID(entityAction.EntityId); !ok {
+		m.state.RemoveEntityActions(entityAction.EntityId)
+		respond.Send(&hagallpb.ErrorResponse{
+			Type:      hagallpb.MsgType_MSG_TYPE_ERROR_RESPONSE,
+			Timestamp: timestamppb.Now(),
+			RequestId: req.RequestId,
+			Code:      hagallpb.ErrorCode_ERROR_CODE_BAD_REQUEST,
+		})
+		return nil
+	}
+
 	now := timestamppb.Now()
 	respond.Send(&vikjapb.EntityActionResponse{
 		Type:      vikjapb.MsgType_MSG_TYPE_VIKJA_ENTITY_ACTION_RESPONSE,
